@@ -250,6 +250,22 @@ func c02main(c *Ctx) {
 				lg.RemoveLevelWriter(l, pool[perm[4]])
 			}
 		}
+		// one member of the writer pool reports an error for this call (with a full, a short or a zero count): every
+		// destination selected for the severity still gets its one whole Write. The diagnostic warning the library
+		// then issues is a record of its own (C13 judges it) and is left out of the per-call count.
+		failing := -1
+		if r.P(15) {
+			failing = perm[r.Intn(3)]
+			if failing == 4 {
+				failing = perm[3]
+			}
+			if failing != 4 {
+				cnt := r.Intn(3)
+				pool[failing].(mon.W).Core().Fail = func(_ int, p []byte) (bool, int) { return true, []int{len(p), len(p) / 2, 0}[cnt] }
+				defer func() { pool[failing].(mon.W).Core().Fail = nil }()
+				c.R.Add("calls_with_a_failing_pool_member", 1)
+			}
+		}
 		nestFmt := Format(r.Intn(3))
 		setFormat(nestLogger, nestFmt)
 		setFormat(lg, f)
@@ -309,7 +325,7 @@ func c02main(c *Ctx) {
 			ctx = nil
 		}
 		desc := map[string]any{"format": f.String(), "logger_level": L.String(), "entry": vb.name, "mode": mode, "severity": int(sev), "msg": q(clip(msg, 200)), "nargs": len(args), "args": adesc,
-			"normal": d.normal, "error": d.errs, "per_level": fmt.Sprint(d.perLevel), "flags": int64(slog.GetFlags()), "child": name == "kid", "nil_ctx": ctx == nil}
+			"normal": d.normal, "error": d.errs, "failing_writer": failing, "per_level": fmt.Sprint(d.perLevel), "flags": int64(slog.GetFlags()), "child": name == "kid", "nil_ctx": ctx == nil}
 		c.R.JournalNote(fmt.Sprintf("%v", desc))
 		log.Reset()
 		pkgCall := false
@@ -372,6 +388,10 @@ func c02main(c *Ctx) {
 		got := map[string][]mon.Event{}
 		for _, e := range evs {
 			if e.Kind == mon.EvWrite {
+				if failing >= 0 && bytes.Contains(e.Data, []byte(diagText)) && (id == "" || !bytes.Contains(e.Data, []byte(id))) {
+					c.R.Add("diagnostic_records_left_to_C13", 1)
+					continue
+				}
 				got[e.W] = append(got[e.W], e)
 			}
 		}
